@@ -5,6 +5,9 @@ META = {"not_applicable": "helper for C14"}
 
 def run(ctx):
     from vlib import c14_pass
+    # the known-findings file lists keys under property C14; this driver runs under the id C14P
+    ctx.is_known = lambda key: next((f for f in ctx.known.get("findings", []) if f.get("property") == "C14"
+                                     and f.get("key") == key and f.get("status") == "open"), None)
     n = c14_pass.part_passes(ctx)
     ctx.corr["evaluations"] = n
     ctx.corr["distinct_nontrivial"] = n
